@@ -2315,6 +2315,10 @@ def parse_item(line_tokens):
     # packs
     elif head == 'pack':
         _, fmt, *imm = tokens
+        try:
+            struct.calcsize(fmt)
+        except struct.error:
+            raise AssemblerError('invalid pack format: "{}"'.format(fmt), line)
         imm = parse_immediate(imm, line)
         return Pack(line, fmt, imm)
     # shorthand packs
@@ -2329,6 +2333,8 @@ def parse_item(line_tokens):
             alignment = int(alignment, base=0)
         except ValueError:
             raise AssemblerError('alignment must be an integer', line)
+        if alignment < 1:
+            raise AssemblerError('alignment must be a positive integer', line)
         return Align(line, alignment)
     # r-type instructions
     elif head in R_TYPE_INSTRUCTIONS:
